@@ -752,7 +752,7 @@ fc_statements = [
     dict(
         name="f_native_*_result_buf_allocatable",
         c_helper="copy_array",
-        f_helper="copy_array_{cxx_type}",
+        f_helper="copy_array_{flat_name}",
         f_module=dict(iso_c_binding=["C_PTR"]),
         declare=[
             "type(C_PTR) :: {F_pointer}",
